@@ -617,26 +617,41 @@ def str_atom(k) -> str:
     return show(k)
 
 
-_show_printer = None
+_show_printers: dict = {}
+SHOW_MODE = "code"  # naming used in reports: the check's own naming (set by validate / replay)
 
 
-def show(e) -> str:
-    """Readable form of an expression for reports: atoms and functions under their display names, SymPy's str otherwise."""
-    global _show_printer
-    if _show_printer is None:
+def show(e, mode: Optional[str] = None) -> str:
+    """Readable form of an expression for reports: atoms and functions under their display names (code names for C17,
+    LaTeX names for C18), SymPy's str otherwise."""
+    mode = mode or SHOW_MODE
+    if mode not in _show_printers:
         from sympy.printing.str import StrPrinter
 
         class _Show(StrPrinter):
+            printmethod = "_tv_show"  # bypass the library's _sympystr so that the naming below decides
+
+            def _print_Symbol(self, expr):
+                if isinstance(expr, R()["Symbolic"]):
+                    return str(expr.name)
+                return display_name(expr, mode)
+
+            def _print_Quantity(self, expr):
+                return display_name(expr, mode)
+
             def _print_Function(self, expr):
                 f = expr.func
-                nm = f.display_name if isinstance(f, R()["DimensionSymbol"]) else f.__name__
+                if isinstance(f, R()["DimensionSymbol"]):
+                    nm = f.display_name if mode == "code" else f.display_latex
+                else:
+                    nm = f.__name__
                 return nm + "(%s)" % self.stringify(expr.args, ", ")
 
-        _show_printer = _Show({"order": "none"})
+        _show_printers[mode] = _Show({"order": "none"})
     try:
         if isinstance(e, (list, tuple)):
-            return "[" + ", ".join(show(x) for x in e) + "]"
-        return _show_printer.doprint(e)
+            return "[" + ", ".join(show(x, mode) for x in e) + "]"
+        return _show_printers[mode].doprint(e)
     except Exception:
         return str(e)
 
@@ -1293,6 +1308,10 @@ class TexReader:
             if tk in (r"\cdot", r"\times"):
                 self.next()
                 continue
+            if tk == "/" and factors:  # inline quotient a/b (SymPy writes rational exponents that way in one place)
+                self.next()
+                factors[-1] = _div(factors[-1], self.factor())
+                continue
             op = self.operator()
             if op is not None:
                 operand = self.term()
@@ -1766,6 +1785,8 @@ class Result:
 
 def validate(kind: str, expr, name: str, signature: str, replay_spec: dict) -> Result:
     """kind: 'code' | 'latex'.  Produces one Ob (proved / refuted) or an out_of_reach entry for this output."""
+    global SHOW_MODE
+    SHOW_MODE = kind
     code_str, latex_str = printers()
     t0 = time.time()
     ms = lambda: (time.time() - t0) * 1000
@@ -1829,6 +1850,8 @@ def make_replay(kind: str, spec: dict, reproduced: bool = True) -> dict:
 
 def replay(kind: str, spec: dict):
     """Re-run one rendering against the real printer and reader; AssertionError if the failure shows."""
+    global SHOW_MODE
+    SHOW_MODE = kind
     expr = load_expr(spec)
     code_str, latex_str = printers()
     try:
@@ -2273,12 +2296,74 @@ def tree_indices(g: Grammar, depth: int, cap: int, seed: int, salt: int = 0) -> 
     return sorted(picked), total
 
 
+def _spec_size(spec) -> int:
+    return 1 if spec[0] in ("s", "n") else 1 + sum(_spec_size(c) for c in spec[1:])
+
+
+def _shrink_candidates(spec):
+    """Strictly smaller specs: hoist a child, or replace a composite sub-tree by a leaf, or shrink inside a child."""
+    if spec[0] in ("s", "n"):
+        return
+    for c in spec[1:]:
+        yield c
+    for k in range(1, len(spec)):
+        c = spec[k]
+        if c[0] not in ("s", "n"):
+            for leaf in (("s", 0), ("s", 1), ("s", 2), ("n", 2, 1), ("n", -2, 1)):
+                yield spec[:k] + (leaf,) + spec[k + 1:]
+            for cc in _shrink_candidates(c):
+                yield spec[:k] + (cc,) + spec[k + 1:]
+    if spec[0] in ("Mul", "Add") and len(spec) > 3:
+        for k in range(1, len(spec)):
+            yield spec[:k] + spec[k + 1:]
+
+
+def shrink_spec(spec, fails: Callable, budget: int = 120):
+    """Greedy reduction of a failing tree to a locally minimal failing one (for grouping and readable replays)."""
+    spec = tuple(spec)
+    progress = True
+    while progress and budget > 0:
+        progress = False
+        for cand in sorted(set(_shrink_candidates(spec)), key=lambda c: (_spec_size(c), repr(c))):
+            budget -= 1
+            if budget <= 0:
+                break
+            if fails(cand):
+                spec, progress = cand, True
+                break
+    return spec
+
+
+def skeleton(spec) -> str:
+    """Shape of a tree with every leaf abstracted to '_' (used to report failing trees once per reduced shape)."""
+    if spec[0] in ("s", "n"):
+        return "_"
+    return spec[0] + "(" + ",".join(skeleton(c) for c in spec[1:]) + ")"
+
+
+_ARITH = ("neg", "add", "sub", "mul", "div", "pow", "Mul", "Add")
+
+
+def folds_in_python(spec) -> bool:
+    """Does the tree contain an arithmetic node all of whose operands are number leaves?  In a module source such a node is
+    computed by Python (or by SymPy's number arithmetic) before any unevaluated SymPy node exists, so the shape cannot
+    reach the printers from a documented member; such trees are validated as observations only."""
+    if spec[0] in ("s", "n"):
+        return False
+    if spec[0] in _ARITH and all(c[0] == "n" for c in spec[1:]):
+        return True
+    return any(folds_in_python(c) for c in spec[1:])
+
+
+SHRINK_CAP = 12  # failing trees reduced per chunk; further ones are counted only
+
+
 def run_trees(args) -> dict:
     """Worker: validate a chunk of one bounded tree population.
     args = (kind, pid, grammar name | 'hand', symset, depth, items); items are enumeration indices (or shape numbers)."""
     kind, pid, gname, symset, depth, items = args
     res = {"group": gname, "symset": symset, "count": 0, "failures": [], "oor": [], "skipped": 0, "trivial": 0,
-           "backends": {}, "dups": 0}
+           "backends": {}, "dups": 0, "observed": {"validated": 0, "agree": 0, "disagree": []}}
     seen = set()
     g = GRAMMARS.get(gname)
     evaluated = g.evaluated if g else False
@@ -2307,11 +2392,45 @@ def run_trees(args) -> dict:
         if r.out_of_reach is not None:
             res["oor"].append(r.out_of_reach)
             continue
+        if not evaluated and folds_in_python(spec):
+            o = res["observed"]
+            o["validated"] += 1
+            if r.ob.verdict == PROVED:
+                o["agree"] += 1
+            elif len(o["disagree"]) < 6:
+                o["disagree"].append({"tree": name, "rendering": r.rendered, "reads_as": r.reads_as[:300]})
+            continue
         res["count"] += 1
         res["trivial"] += 1 if r.trivial else 0
         res["backends"][r.ob.backend] = res["backends"].get(r.ob.backend, 0) + 1
         if r.ob.verdict != PROVED:
-            res["failures"].append({"name": name, "detail": r.ob.detail, "signature": r.ob.signature, "replay": r.ob.replay})
+            if len(res["failures"]) >= SHRINK_CAP:
+                res["unreduced"] = res.get("unreduced", 0) + 1
+                continue
+            last: dict = {}
+
+            def fails(cand):
+                try:
+                    if not evaluated and folds_in_python(cand):
+                        return False
+                    v = build_tree(cand, symset, True)
+                    if not _finite(v):
+                        return False
+                    ce = v if evaluated else build_tree(cand, symset, False)
+                    rr = validate(kind, ce, name, "", {"population": "tree", "tree": cand, "symset": symset,
+                                                        "evaluated": evaluated})
+                except Exception:
+                    return False
+                if rr.ob is not None and rr.ob.verdict == REFUTED:
+                    last[cand] = rr
+                    return True
+                return False
+
+            small = shrink_spec(spec, fails)
+            rr = last.get(small, r)
+            sk = skeleton(small)
+            res["failures"].append({"skeleton": sk, "example": name, "spec": small, "detail": rr.ob.detail,
+                                    "replay": rr.ob.replay, "symset": symset})
     return res
 
 
@@ -2397,7 +2516,24 @@ def run_property(report, pid: str, kind: str):
                                  "1/(-a), -a/(-b), sums with negative leading terms, quotient/power nestings")):
         rs = [r for r in tree_results if r["group"] == gname]
         cnt = sum(r["count"] for r in rs)
-        fails = [f for r in rs for f in r["failures"]]
+        # failing trees are reduced to locally minimal failing shapes and reported once per shape
+        groups: dict = {}
+        for r in rs:
+            for f in r["failures"]:
+                gkey = f["skeleton"]
+                if gkey not in groups:
+                    groups[gkey] = dict(f, n=0)
+                groups[gkey]["n"] += 1
+        unreduced = sum(r.get("unreduced", 0) for r in rs)
+        fails = []
+        for sk, f in sorted(groups.items()):
+            fails.append({"name": f"{pid}/tree/{gname}/{sk}", "signature": sk,
+                          "detail": f"{f['n']} failing trees reduce to the shape {sk} (e.g. {f['example']}, symbol set "
+                                    f"{f['symset']}): {f['detail']}",
+                          "replay": f["replay"]})
+        if unreduced and fails:
+            fails[0]["detail"] += f" ; [{unreduced} further failing {gname} trees were counted but not reduced]"
+        tree_failing = sum(f["n"] for f in groups.values()) + unreduced
         back: dict = {}
         for r in rs:
             for k, v in r["backends"].items():
@@ -2417,6 +2553,14 @@ def run_property(report, pid: str, kind: str):
                            "duplicates_in_chunk": sum(r["dups"] for r in rs),
                            "out_of_reach": sum(len(r["oor"]) for r in rs),
                            "identical_normal_form": sum(r["trivial"] for r in rs), "backends": back,
+                           "failing_trees": tree_failing, "failing_shapes": sorted(groups),
+                           "number_only_arithmetic_observed": {
+                               "note": "source-form trees containing an arithmetic node over number leaves only (Python / "
+                                       "SymPy number arithmetic folds it before a documented member exists): validated, "
+                                       "not obligations",
+                               "validated": sum(r["observed"]["validated"] for r in rs),
+                               "agree": sum(r["observed"]["agree"] for r in rs),
+                               "disagree_examples": [d for r in rs for d in r["observed"]["disagree"]][:12]},
                            "by_symset": {ss: sum(r["count"] for r in rs if r["symset"] == ss) for ss in ("base", alt)}}
     for nm, why in toor[:40]:
         report.add_out_of_reach(nm, why)
